@@ -7,7 +7,7 @@ REPO = os.environ.get('VERIF_REPO', '/repo')
 LEAN = os.path.join(HERE, 'lean')
 HARNESS = os.path.join(HERE, 'harness')
 CACHE_ROOT = os.path.join(HERE, '.cache')
-EVID = os.path.join(HERE, 'evidence')
+EVID = os.environ.get('VERIF_EVIDENCE_DIR') or os.path.join(HERE, 'evidence')      # tools/run_seeded.py redirects it: committed evidence comes from the unchanged tree only
 REPLAYS = os.path.join(HERE, 'replays')
 JOBS = int(os.environ.get('VERIF_JOBS', '16'))
 ALLOWED_AXIOMS = {'propext', 'Classical.choice', 'Quot.sound'}
